@@ -48,6 +48,11 @@ def configs():
     c['nobit'] = dict(FULL, signatures={'1a2b': ['MARKER_SIG', {}]})
     c['noattn'] = {k: v for k, v in FULL.items() if k != 'attn_types'}
     c['noregs'] = {k: v for k, v in FULL.items() if k != 'registers'}
+    # entries that are there but incomplete: a name without its bit/address table, an empty or null entry, null tables
+    c['nametonly'] = dict(FULL, signatures={'1a2b': ['MARKER_SIG']}, registers={'aabbcc': ['MARKER_REG_NAME_ONLY']})
+    c['emptyentry'] = dict(FULL, signatures={'1a2b': []}, registers={'aabbcc': []})
+    c['nullentry'] = dict(FULL, signatures={'1a2b': None}, registers={'aabbcc': None})
+    c['nulltables'] = dict(FULL, signatures=None, registers=None, attn_types=None)
     c['other'] = dict(FULL, model_ec={'id': '0badc0de', 'type': 'ocmb', 'desc': 'Other'})
     return c
 
